@@ -29,7 +29,15 @@ def missing_values_discipline(ctx: Ctx, rule: str):
         ctr = ctrs[0] if len(ctrs) == 1 else "n"
         canon = util.canon_of(f)
         vparam = f.params[1] if len(f.params) > 1 else "values"
-        ctx.check(norm(l1.iter) == "self.ode.states + self.ode.parameters", rule, f.key("atoms-loop"), "states and parameters can be exported", f"missing_values: first loop iterates {norm(l1.iter)} (a requested parameter or state of another kind would never be stored: its slot stays 0)", f.where(l1))
+        def seq_text(node):
+            # a + b, itertools.chain(a, b), (*a, *b), [*a, *b]: the concatenation of a and b
+            if isinstance(node, ast.Call) and (dotted(node.func) or "").split(".")[-1] == "chain" and node.args and not node.keywords:
+                return " + ".join(norm(a) for a in node.args)
+            if isinstance(node, (ast.Tuple, ast.List)) and node.elts and all(isinstance(e, ast.Starred) for e in node.elts):
+                return " + ".join(norm(e.value) for e in node.elts)
+            return norm(node)
+
+        ctx.check(seq_text(l1.iter) == "self.ode.states + self.ode.parameters", rule, f.key("atoms-loop"), "states and parameters can be exported", f"missing_values: first loop iterates {seq_text(l1.iter)} (a requested parameter or state of another kind would never be stored: its slot stays 0)", f.where(l1))
         ctx.check(norm(l2.iter) == "self.ode.sorted_assignments(remove_unused=False)", rule, f.key("assignments-loop"), "all assignments, never filtered", f"missing_values: second loop iterates {norm(l2.iter)} (an exported intermediate that nothing else uses would be dropped)", f.where(l2))
         for idx, l in enumerate((l1, l2)):
             if not isinstance(l.target, ast.Name):
